@@ -136,12 +136,14 @@ inductive Relation where
 
 inductive Err where
   | diverged | noSuchRevision | ghostRevno | appendOnly | notPresent | assertion
+  | localRequiresBound
   deriving DecidableEq, Repr
 
 def Err.toString : Err → String
   | .diverged => "E:Diverged" | .noSuchRevision => "E:NoSuchRevision"
   | .ghostRevno => "E:GhostRevno" | .appendOnly => "E:AppendOnly"
   | .notPresent => "E:NotPresent" | .assertion => "E:Assertion"
+  | .localRequiresBound => "E:LocalRequiresBound"
 
 /-- Python set equality between a set given as a list and a set display -/
 def sameSet (l1 l2 : List Tip) : Bool := l1.all (l2.contains ·) && l2.all (l1.contains ·)
@@ -260,6 +262,20 @@ def bound2 (f : Br → Except Err Br) (tgt : Br) (master : Option Br) : Outcome 
 /-- `GenericInterBranch.pull` (source is not the master) -/
 def pullOp (g : Graph) (src tgt : Br) (master : Option Br) (stop : Option Tip) (ow : Bool) : Outcome :=
   bound2 (fun b => updateRevisions g src b stop ow) tgt master
+
+/-- `GenericInterBranch.pull` with its `local` flag and the test whether the
+source IS the master of the bound target (`source_is_master`): `local=True`
+needs a bound target (`LocalRequiresBoundBranch`); with `local=True` or when
+pulling from the master itself the master is not touched and only the target
+is updated (`_pull` is called without `local`) -/
+def pullOpX (g : Graph) (src tgt : Br) (master : Option Br) (stop : Option Tip) (ow : Bool)
+    (isLocal srcIsMaster : Bool) : Outcome :=
+  if isLocal && master.isNone then ⟨some .localRequiresBound, tgt, master⟩
+  else if (isLocal || srcIsMaster) && master.isSome then
+    match updateRevisions g src tgt stop ow with
+    | .ok t => ⟨none, t, master⟩
+    | .error e => ⟨some e, tgt, master⟩
+  else pullOp g src tgt master stop ow
 
 /-- `GenericInterBranch.push` -/
 def pushOp (g : Graph) (src tgt : Br) (master : Option Br) (stop : Option Tip) (ow : Bool) : Outcome :=
